@@ -119,11 +119,35 @@ def _discharge(ctx, h, case, deadline, rng, out_paths, path_id, emit):
     prec = dict(path=path_id, twin=tw, notes=[(str(n)[:100], bool(d)) for n, d in ctx.path_notes],
                 n_obl=len(h.obls), exc=None)
     results = []
-    if tw == "unsat":
-        # infeasible under assumptions stated after the branch: nothing to decide on this path
-        prec["t"] = round(time.time() - t0, 2)
-        emit(("path", prec))
-        return
+    snap_twin = {}
+
+    def facts_of(o):
+        na, nx, npth, nd = o.snap
+        return list(ctx.assumes[:na]) + list(ctx.axioms[:nx]) + list(ctx.path[:npth]) + [d != 0 for d in ctx.dens[:nd]]
+
+    def snap_ok(o):
+        """when the final context is infeasible (e.g. a denominator registered later vanishes on this path),
+        an obligation still counts if the context in force when it was stated is satisfiable"""
+        if o.snap not in snap_twin:
+            r, _ = core.check_sat(facts_of(o), min(case.timeout, 20) * 1000)
+            if r != "sat":
+                for pins in pinned_queries(ctx, rng, 4):
+                    r, _ = core.check_sat(facts_of(o) + pins, 5000)
+                    if r == "sat":
+                        break
+            snap_twin[o.snap] = r
+        return snap_twin[o.snap] == "sat"
+    final_infeasible = (tw == "unsat")
+    prec["final_infeasible"] = final_infeasible
+    if final_infeasible:
+        live = [o for o in h.obls if snap_ok(o)]
+        prec["n_obl_live"] = len(live)
+        if not live:
+            prec["t"] = round(time.time() - t0, 2)
+            emit(("path", prec))
+            return
+        prec["twin"] = tw = "sat"
+        h.obls = live
     # sentinel
     sent = None
     if case.sentinel and h.sentinels and tw == "sat":
@@ -149,6 +173,7 @@ def _discharge(ctx, h, case, deadline, rng, out_paths, path_id, emit):
             sent = dict(name=None, idx=None, result="none (all candidate right-hand sides identically zero or undecided)")
     prec["sentinel"] = sent
     for o in h.obls:
+        facts = facts_of(o)
         rec = dict(case=case.id, path=path_id, name=o.name, idx=o.idx, kind=o.kind, info=o.info)
         if o.trivial is True:
             rec.update(status="trivial", t=0.0)
@@ -227,6 +252,11 @@ def _sym_worker(case, conn, seed, trace_fns):
                                    tb=item.get("tb", "")[-1500:], notes=[(str(n)[:100], bool(d)) for n, d in core.CTX.path_notes], n_obl=0)))
                 continue
             h = item["result"]
+            if item.get("partial"):
+                h = hbox.get("h")
+                if h is None or not h.obls:
+                    pid -= 1
+                    continue
             _discharge(core.CTX, h, case, deadline, rng, None, pid, emit)
             if time.time() > deadline:
                 break
